@@ -3,7 +3,10 @@
    and Info), Size() (readBoxSize overrides the computed size), calcSize, Encode (FixedSliceWriter of Size() bytes:
    overflow is an error, under-fill is silent), EncodeSW (into the caller's writer).  Definitions only.
    Mirrors /repo after the fix commits ecf1460 and 0b086ee (AddSample keeps one SubSamples entry per sample and
-   refuses a sample without IV after samples with IVs); `senc_add_pinned` is the text before them. *)
+   refuses a sample without IV after samples with IVs; `senc_add_pinned` is the text before them) and 954ff09
+   (a decoded box without samples writes its rawData back; `senc_body_pinned` is the text before it).
+   Second part: the decoders DecodeSenc / DecodeSencSR (`senc_decode`) and the second decoding phase ParseReadBox /
+   parseAndFillSamples (`senc_parse`), i.e. every SencBox state the decoders produce. *)
 From V.lib Require Import Base.
 From V.c05 Require Import C05CodecModel.
 From V.c02 Require Import C02AggModel.
@@ -17,7 +20,8 @@ Notation subsample := (N * N)%type (only parsing).
 Record senc := mkSenc {
   sn_version : N; sn_flags : N; sn_count : N; sn_ivsize : N;
   sn_ivs : list (list N); sn_subs : list (list subsample);
-  sn_raw : option (list N);        (* readButNotParsed with rawData *)
+  sn_raw : list N;                 (* rawData: the payload after the sample count, kept by the decoder *)
+  sn_np : bool;                    (* readButNotParsed *)
   sn_read : N }.                   (* readBoxSize *)
 
 Definition B_SUBS : N := 1.        (* UseSubSampleEncryption 0x2 *)
@@ -25,10 +29,10 @@ Definition sn_use_subs (s : senc) : bool := N.testbit (sn_flags s) B_SUBS.
 Definition is_nil {A} (l : list A) : bool := match l with [] => true | _ => false end.
 
 Definition sn_with_flags (s : senc) (f : N) : senc :=
-  mkSenc (sn_version s) f (sn_count s) (sn_ivsize s) (sn_ivs s) (sn_subs s) (sn_raw s) (sn_read s).
+  mkSenc (sn_version s) f (sn_count s) (sn_ivsize s) (sn_ivs s) (sn_subs s) (sn_raw s) (sn_np s) (sn_read s).
 
 (* CreateSencBox *)
-Definition senc_create : senc := mkSenc 0 0 0 0 [] [] None 0.
+Definition senc_create : senc := mkSenc 0 0 0 0 [] [] [] false 0.
 
 (* setSubSamplesUsedFlag *)
 Definition senc_setflag (s : senc) : senc :=
@@ -41,25 +45,25 @@ Definition senc_add_gen (fixed : bool) (s : senc) (iv : list N) (subs : list sub
             | _ =>
                 if sn_count s =? 0 then
                   Ok (mkSenc (sn_version s) (sn_flags s) (sn_count s) (u8 (lenN iv)) (sn_ivs s ++ [iv]) (sn_subs s)
-                             (sn_raw s) (sn_read s))
+                             (sn_raw s) (sn_np s) (sn_read s))
                 else if negb (lenN iv =? sn_ivsize s) then Err          (* mix of IV lengths *)
                 else Ok (mkSenc (sn_version s) (sn_flags s) (sn_count s) (sn_ivsize s) (sn_ivs s ++ [iv]) (sn_subs s)
-                                (sn_raw s) (sn_read s))
+                                (sn_raw s) (sn_np s) (sn_read s))
             end);
   let s2 :=
     if fixed then
       if negb (is_nil subs) || sn_use_subs s1 then
         let padded := sn_subs s1 ++ repeat [] (N.to_nat (sn_count s1) - length (sn_subs s1)) in
         mkSenc (sn_version s1) (if negb (is_nil subs) then N.setbit (sn_flags s1) B_SUBS else sn_flags s1)
-               (sn_count s1) (sn_ivsize s1) (sn_ivs s1) (padded ++ [subs]) (sn_raw s1) (sn_read s1)
+               (sn_count s1) (sn_ivsize s1) (sn_ivs s1) (padded ++ [subs]) (sn_raw s1) (sn_np s1) (sn_read s1)
       else s1
     else
       if negb (is_nil subs) then
         mkSenc (sn_version s1) (N.setbit (sn_flags s1) B_SUBS) (sn_count s1) (sn_ivsize s1) (sn_ivs s1)
-               (sn_subs s1 ++ [subs]) (sn_raw s1) (sn_read s1)
+               (sn_subs s1 ++ [subs]) (sn_raw s1) (sn_np s1) (sn_read s1)
       else s1 in
   Ok (mkSenc (sn_version s2) (sn_flags s2) (u32 (sn_count s2 + 1)) (sn_ivsize s2) (sn_ivs s2) (sn_subs s2)
-             (sn_raw s2) (sn_read s2)).
+             (sn_raw s2) (sn_np s2) (sn_read s2)).
 
 Definition senc_add := senc_add_gen true.
 Definition senc_add_pinned := senc_add_gen false.
@@ -95,21 +99,22 @@ Definition senc_sample_bytes (s : senc) (i : nat) : list N :=
 Definition senc_index_bad (s : senc) : bool :=
   ((0 <? sn_ivsize s) && (lenN (sn_ivs s) <? sn_count s)) || (sn_use_subs s && (lenN (sn_subs s) <? sn_count s)).
 
-(* EncodeSWNoHdr after versionAndFlags and SampleCount *)
-Definition senc_body (s : senc) : res (list N) :=
-  match sn_raw s with
-  | Some d => Ok d
-  | None =>
-      if (sn_ivsize s =? 0) && negb (sn_use_subs s) then Ok []
-      else if senc_index_bad s then Panic                                            (* IVs[i] / SubSamples[i] *)
-      else Ok (flat_map (senc_sample_bytes s) (seq 0 (N.to_nat (sn_count s))))
-  end.
+(* EncodeSWNoHdr after versionAndFlags and SampleCount; fixed = false: the text before 954ff09 *)
+Definition senc_body_gen (fixed : bool) (s : senc) : res (list N) :=
+  if sn_np s then Ok (sn_raw s)
+  else if fixed && (sn_count s =? 0) && (0 <? sn_read s) then Ok (sn_raw s)   (* decoded, no samples: the bytes are kept *)
+  else if (sn_ivsize s =? 0) && negb (sn_use_subs s) then Ok []
+  else if senc_index_bad s then Panic                                            (* IVs[i] / SubSamples[i] *)
+  else Ok (flat_map (senc_sample_bytes s) (seq 0 (N.to_nat (sn_count s)))).
+Definition senc_body := senc_body_gen true.
+Definition senc_body_pinned := senc_body_gen false.
 
-Definition senc_all (s : senc) : res (N * list N) :=
+Definition senc_all_gen (fixed : bool) (s : senc) : res (N * list N) :=
   do size <- senc_size s;
   do hd <- enc_hdr TY_SENC size;
-  do body <- senc_body s;
+  do body <- senc_body_gen fixed s;
   Ok (size, hd ++ be32 (u32 (sn_version s * 16777216 + sn_flags s)) ++ be32 (sn_count s) ++ body).
+Definition senc_all := senc_all_gen true.
 
 (* Encode(w): the flag is set first; a FixedSliceWriter of Size() bytes *)
 Definition senc_encode_w (s : senc) : senc * res (list N) :=
@@ -123,10 +128,8 @@ Definition senc_encode_sw (s : senc) : senc * res (list N) :=
 (* Info at detail level 1 (specificBoxLevels "all:1"): returns before the flag loop when the box has been read but
    not parsed; otherwise sets the flag and prints IVs[i] / SubSamples[i] of every sample *)
 Definition senc_info (s : senc) : res senc :=
-  match sn_raw s with
-  | Some _ => Ok s
-  | None => let s' := senc_setflag s in if senc_index_bad s' then Panic else Ok s'
-  end.
+  if sn_np s then Ok s
+  else let s' := senc_setflag s in if senc_index_bad s' then Panic else Ok s'.
 
 (* the box as the aggregate model sees it *)
 Definition senc_obox (s : senc) : obox :=
@@ -135,3 +138,107 @@ Definition senc_obox (s : senc) : obox :=
   | Ok n, _ => mkObox TY_SENC n [] true
   | _, _ => mkObox TY_SENC 0 [] true
   end.
+
+(* ------------------------------------------------------------------ the decoders *)
+(* DecodeSenc / DecodeSencSR on a box whose header announces `hsize` bytes with a header of `hlen` (8 or 16) bytes and
+   whose payload is `payload` (hsize - hlen bytes).  Both decoders make the same checks (in a different order: every
+   failure is an error) and leave the same SencBox. *)
+Definition rd32_at (l : list N) (k : nat) : N :=
+  match skipn k l with a :: b :: c :: d :: _ => ((a * 256 + b) * 256 + c) * 256 + d | _ => 0 end.
+
+Definition senc_decode (hsize hlen : N) (payload : list N) : res senc :=
+  if hsize <? 16 then Err
+  else if lenN payload <? 8 then Err
+  else
+    let vf := rd32_at payload 0 in
+    let version := vf / 16777216 in
+    let flags := vf mod 16777216 in
+    if 0 <? version then Err
+    else
+      let count := rd32_at payload 4 in
+      let raw := skipn 8 payload in
+      if N.testbit flags B_SUBS && (lenN raw <? 2 * count) then Err
+      else Ok (mkSenc version flags count 0 [] [] raw (negb ((count =? 0) || (lenN raw =? 0))) (hsize - hlen + 8)).
+
+(* parseAndFillSamples, the loop: n samples left, each an IV of piv bytes (when piv > 0), a 16-bit sub-sample count
+   and that many 6-byte patterns; None: the data ends early *)
+Definition rd_pattern (d : list N) : subsample :=
+  match d with a :: b :: c :: e :: f :: g :: _ => (a * 256 + b, ((c * 256 + e) * 256 + f) * 256 + g) | _ => (0, 0) end.
+
+Fixpoint rd_patterns (k : nat) (d : list N) : list subsample :=
+  match k with
+  | O => []
+  | S k' => rd_pattern d :: rd_patterns k' (skipn 6 d)
+  end.
+
+Fixpoint parse_samples (n : nat) (piv : N) (d : list N) : option (list (list N) * list (list subsample) * list N) :=
+  match n with
+  | O => Some ([], [], d)
+  | S n' =>
+      if (0 <? piv) && (lenN d <? piv) then None
+      else
+        let iv := firstn (N.to_nat piv) d in
+        let d1 := skipn (N.to_nat piv) d in
+        if lenN d1 <? 2 then None
+        else
+          let cnt := match d1 with a :: b :: _ => a * 256 + b | _ => 0 end in
+          let d2 := skipn 2 d1 in
+          if lenN d2 <? cnt * 6 then None
+          else
+            let ss := rd_patterns (N.to_nat cnt) d2 in
+            match parse_samples n' piv (skipn (N.to_nat (cnt * 6)) d2) with
+            | Some (ivs, sss, rest) => Some ((if 0 <? piv then iv :: ivs else ivs), ss :: sss, rest)
+            | None => None
+            end
+  end.
+
+(* parseAndFillSamples: on failure (data ends early, or bytes are left over) IVs and SubSamples are reset; the
+   per-sample IV size is stored either way *)
+Definition senc_fill (s : senc) (piv : N) : senc * bool :=
+  match parse_samples (N.to_nat (sn_count s)) piv (sn_raw s) with
+  | Some (ivs, sss, []) =>
+      (mkSenc (sn_version s) (sn_flags s) (sn_count s) piv (sn_ivs s ++ ivs) sss (sn_raw s) (sn_np s) (sn_read s), true)
+  | _ => (mkSenc (sn_version s) (sn_flags s) (sn_count s) piv [] [] (sn_raw s) (sn_np s) (sn_read s), false)
+  end.
+
+Definition sn_parsed (s : senc) : senc :=
+  mkSenc (sn_version s) (sn_flags s) (sn_count s) (sn_ivsize s) (sn_ivs s) (sn_subs s) (sn_raw s) false (sn_read s).
+Definition sn_with_iv (s : senc) (ivsize : N) (ivs : list (list N)) : senc :=
+  mkSenc (sn_version s) (sn_flags s) (sn_count s) ivsize ivs (sn_subs s) (sn_raw s) (sn_np s) (sn_read s).
+
+(* the IVs of the no-sub-sample case: SampleCount reads of piv bytes (the caller has checked that they fit) *)
+Fixpoint rd_ivs (n : nat) (piv : nat) (d : list N) : list (list N) :=
+  match n with
+  | O => []
+  | S n' => firstn piv d :: rd_ivs n' piv (skipn piv d)
+  end.
+
+(* ParseReadBox(perSampleIVSize, saiz): the state afterwards and whether an error is returned.  nrBytesLeft is a
+   uint32 and the inferred size a byte (the division cannot be by zero: a box with SampleCount 0 is never
+   readButNotParsed after decoding; a hand-made one panics) *)
+Definition senc_parse (s : senc) (piv0 : N) : senc * res unit :=
+  if negb (sn_np s) then (s, Err)                                     (* senc box already parsed *)
+  else
+    let s0 := if piv0 =? 0 then s else sn_with_iv s piv0 (sn_ivs s) in
+    let left := u32 (lenN (sn_raw s)) in
+    if negb (sn_use_subs s) then
+      if (piv0 =? 0) && (sn_count s =? 0) then (s0, Panic)            (* integer divide by zero *)
+      else
+        let piv := if piv0 =? 0 then u8 (left / sn_count s) else piv0 in
+        let s1 := sn_with_iv s0 piv (sn_ivs s0) in
+        if left <? piv * sn_count s then (s1, Err)
+        else
+          if piv =? 0 then (sn_parsed (sn_with_iv s1 piv []), Ok tt)
+          else if (piv =? 8) || (piv =? 16) then
+            (sn_parsed (sn_with_iv s1 piv (rd_ivs (N.to_nat (sn_count s)) (N.to_nat piv) (sn_raw s))), Ok tt)
+          else (sn_with_iv s1 piv [], Err)                            (* strange derived PerSampleIVSize *)
+    else if negb (piv0 =? 0) then
+      let '(s1, ok) := senc_fill s0 piv0 in
+      if ok then (sn_parsed s1, Ok tt) else (s1, Err)
+    else
+      let '(s1, ok1) := senc_fill s0 0 in
+      if ok1 then (sn_parsed s1, Ok tt)
+      else let '(s2, ok2) := senc_fill s1 8 in
+           if ok2 then (sn_parsed s2, Ok tt)
+           else let '(s3, ok3) := senc_fill s2 16 in
+                if ok3 then (sn_parsed s3, Ok tt) else (s3, Err).
